@@ -476,9 +476,10 @@ func c19Cursors(x *engine.X) {
 	const n = 40
 	values := make([]variant.Value, n)
 	for i := range values {
-		values[i] = obj("a", variant.Int64(int64(1000+i)), "b", variant.String(fmt.Sprintf("s%d", i)))
+		// a, b and ok are shredded; x is not (every row is a partially shredded object)
+		values[i] = obj("a", variant.Int64(int64(1000+i)), "b", variant.String(fmt.Sprintf("s%d", i)), "ok", variant.Bool(i%3 == 0 || i%7 == 1), "x", variant.String(fmt.Sprintf("x%d", i)))
 	}
-	node, err := parquet.ShreddedVariant(parquet.Group{"a": parquet.Int(64), "b": parquet.String()})
+	node, err := parquet.ShreddedVariant(parquet.Group{"a": parquet.Int(64), "b": parquet.String(), "ok": parquet.Leaf(parquet.BooleanType)})
 	if err != nil {
 		x.Failf("harness", "schema", "%v", err)
 		return
@@ -504,13 +505,13 @@ func c19Cursors(x *engine.X) {
 		return
 	}
 	defer r.Close()
-	ops := []string{"cursor(a)", "cursor(b)", "Next(3)", "Next(10)", "Seek(0)", "Seek(7)", "Seek(25)"}
+	ops := []string{"cursor(a)", "cursor(b)", "Next(3)", "Next(10)", "Seek(0)", "Seek(7)", "Seek(25)", "cursor(x)", "cursor(ok)"}
 	depth := 4
 	if x.Tier == "thorough" {
 		depth = 5
 	}
 	var hist []string
-	var ca, cb *parquet.VariantCursor
+	var ca, cb, cx, cok *parquet.VariantCursor
 	pos := 0
 	for d := 0; d < depth; d++ {
 		c := x.Choose(len(ops)+1, "op")
@@ -524,6 +525,10 @@ func c19Cursors(x *engine.X) {
 			ca = r.Path("a")
 		case op == "cursor(b)":
 			cb = r.Path("b")
+		case op == "cursor(x)":
+			cx = r.Path("x") // below the shredded schema: navigates the leftovers of the object
+		case op == "cursor(ok)":
+			cok = r.Path("ok")
 		case strings.HasPrefix(op, "Seek"):
 			var k int
 			fmt.Sscanf(op, "Seek(%d)", &k)
@@ -580,6 +585,29 @@ func c19Cursors(x *engine.X) {
 					}
 				}
 			}
+			if cx != nil {
+				for i := 0; i < m; i++ {
+					v, ok, err := cx.Residual(i)
+					want := fmt.Sprintf("x%d", pos+i)
+					if err != nil || !ok || !v.Equal(variant.String(want)) {
+						x.Failf("cursor-value", "cursor=x", "after %v: window row %d (file row %d): the unshredded field x reads ok=%v err=%v value=%v loc=%v, want %q", hist, i, pos+i, ok, err, v, cx.Locs()[i], want)
+						return
+					}
+				}
+			}
+			if cok != nil {
+				bs := cok.Booleans()
+				if len(bs) != m {
+					x.Failf("cursor-window", "cursor=ok", "after %v: cursor ok holds %d booleans for a window of %d rows", hist, len(bs), m)
+					return
+				}
+				for i := 0; i < m; i++ {
+					if want := (pos+i)%3 == 0 || (pos+i)%7 == 1; bs[i] != want {
+						x.Failf("cursor-value", "cursor=ok", "after %v: window row %d (file row %d): ok=%v, want %v", hist, i, pos+i, bs[i], want)
+						return
+					}
+				}
+			}
 			pos += m
 		}
 	}
@@ -594,7 +622,7 @@ func init() {
 	Register(&engine.Prop{
 		ID:    "C19",
 		Level: "exploration",
-		Rule: "value trees by grammar (37 primitives covering all 21 kinds at width / length edges; all arrays of <=2 elements over an 8-value core; all objects over fields {a, b, zz} each absent or one of 4 core values, unsorted insertion order; 2-level nestings incl. a key shared at two depths; size edges: 255/256 elements, 255/256 keys, 64 KiB / 70 KB strings) through (1) Encode/Decode, the streaming Builder and Marshal/Unmarshal; (2) 23 shredding schemas (unshredded, 13 primitive typed_values, objects with shredded/unshredded fields, nested objects, lists of primitives / objects / lists) x 5 write paths (GenericWriter, GenericBuffer+WriteRowGroup, WriteRows(Deconstruct), VariantColumnWriter.WriteValue, VariantColumnWriter events with shared FieldRefs) x 3 read paths (converted to unshredded, through the file schema, NewReader with a Variant schema); (3) all sequences of <=4 (5 thorough) operations from {create cursor a, create cursor b, Next(3), Next(10), SeekToRow(0|7|25)} on a VariantReader over a shredded object column; " +
+		Rule: "value trees by grammar (37 primitives covering all 21 kinds at width / length edges; all arrays of <=2 elements over an 8-value core; all objects over fields {a, b, zz} each absent or one of 4 core values, unsorted insertion order; 2-level nestings incl. a key shared at two depths; size edges: 255/256 elements, 255/256 keys, 64 KiB / 70 KB strings) through (1) Encode/Decode, the streaming Builder and Marshal/Unmarshal; (2) 23 shredding schemas (unshredded, 13 primitive typed_values, objects with shredded/unshredded fields, nested objects, lists of primitives / objects / lists) x 5 write paths (GenericWriter, GenericBuffer+WriteRowGroup, WriteRows(Deconstruct), VariantColumnWriter.WriteValue, VariantColumnWriter events with shared FieldRefs) x 3 read paths (converted to unshredded, through the file schema, NewReader with a Variant schema); (3) all sequences of <=4 (5 thorough) operations from {create cursor a (int64), b (string), ok (boolean), x (a field the schema does NOT shred, read through the leftovers), Next(3), Next(10), SeekToRow(0|7|25)} on a VariantReader over a partially shredded object column of several pages; " +
 			"evaluation = one value or one read path; non-trivial = every (schema, write path, chunk) / history",
 		Assumptions: []string{"equality is variant.Value.Equal (structural); every value is written raw (metadata, value bytes) so that all 21 kinds take part"},
 		Bound:       func(string) int { return 0 },
